@@ -339,7 +339,7 @@ const InstDB::InstInfo InstDB::_inst_info_table[] = {
   INST(Invept           , X86Rm_NoSize       , O(660F38,80,_,_,_,_,_,_  ), 0                         , 2  , 0  , 85 , 67 ), // #290
   INST(Invlpg           , X86M_Only          , O(000F00,01,7,_,_,_,_,_  ), 0                         , 24 , 0  , 32 , 45 ), // #291
   INST(Invlpga          , X86Op_xAddr        , O(000F01,DF,_,_,_,_,_,_  ), 0                         , 23 , 0  , 86 , 23 ), // #292
-  INST(Invlpgb          , X86Op              , O(000F01,FE,_,_,_,_,_,_  ), 0                         , 23 , 0  , 87 , 68 ), // #293
+  INST(Invlpgb          , X86Op_xAddr        , O(000F01,FE,_,_,_,_,_,_  ), 0                         , 23 , 0  , 87 , 68 ), // #293
   INST(Invpcid          , X86Rm_NoSize       , O(660F38,82,_,_,_,_,_,_  ), 0                         , 2  , 0  , 85 , 45 ), // #294
   INST(Invvpid          , X86Rm_NoSize       , O(660F38,81,_,_,_,_,_,_  ), 0                         , 2  , 0  , 85 , 67 ), // #295
   INST(Iret             , X86Op              , O(660000,CF,_,_,_,_,_,_  ), 0                         , 21 , 0  , 88 , 1  ), // #296
